@@ -9,7 +9,10 @@
 (* applied to the input; the component's reported state must equal the     *)
 (* specification's (= Agg of the child states) and the probe sequence must *)
 (* satisfy the round-robin clause.                                         *)
-(* "wt" documents a sticky TRANSIENT_FAILURE per child (a child going TF   *)
+(* "wtb" is the real weighted_target balancer (config updates adding /     *)
+(* removing targets, changing weights, replacing a target's child policy   *)
+(* type; stub children under two registered policy names).                 *)
+(* "wt" / "wtb": the aggregator documents a sticky TRANSIENT_FAILURE per child (a child going TF   *)
 (* -> CONNECTING keeps counting as TF): the weaker reading (R2) accepts    *)
 (* the aggregate over either the raw or the sticky child states.           *)
 (***************************************************************************)
@@ -19,14 +22,15 @@ vars == <<avars, l, tg, obsRep, eff>>
 Init == AInit /\ l = 1 /\ tg = "none" /\ obsRep = "TF" /\ eff = st /\ InitRegs
 Ev == Trace[l]
 Last(s) == s[Len(s)]
+IsWT == tg \in {"wt", "wtb"}
 Sticky(c, s) == IF eff[c] = "TF" /\ s = "CONNECTING" THEN "TF" ELSE s
 CheckObs ==
   /\ obsRep' = IF Len(Ev.rep) > 0 THEN Last(Ev.rep) ELSE obsRep
-  /\ IF tg = "wt"
+  /\ IF IsWT
        THEN Mark(obsRep' # reported' /\ obsRep' # Agg(eff'), "I_AggState", l)
        ELSE Mark(obsRep' # reported', "I_AggState", l)
   /\ Mark(tg = "cse" /\ \E i \in 1..Len(Ev.rep) : Ev.rep[i] # reported', "I_AggState", l)
-  /\ Drift(tg = "wt" /\ obsRep' # reported', "wt_sticky_tf", l)
+  /\ Drift(IsWT /\ obsRep' # reported', "wt_sticky_tf", l)
   /\ Drift(tg # "cse" /\ Len(Ev.rep) # 1, "number_of_UpdateState_calls", l)
   /\ IF ~Has(Ev, "picks") THEN TRUE
      ELSE IF tg = "es" THEN
@@ -37,10 +41,16 @@ CheckObs ==
        Mark(\E i \in 1..Len(Ev.picks) : Ev.picks[i] \notin (AggSet(st') \cup AggSet(eff') \cup {0}), "I_PickOnlyAgg", l)
 NewSt == [c \in Children |-> IF \E i \in 1..Len(Ev.cs) : Ev.cs[i] = c
                              THEN (IF st[c] # "none" THEN st[c] ELSE Ev.init[c]) ELSE "none"]
+InSeq(x, q) == \E i \in 1..Len(q) : q[i] = x
+\* weighted_target config update: targets cs are present afterwards, those in rp got a new child policy type
+NewStW(f) == [c \in Children |-> IF InSeq(c, Ev.cs)
+                                  THEN (IF f[c] = "none" \/ InSeq(c, Ev.rp) THEN "CONNECTING" ELSE f[c]) ELSE "none"]
 Step ==
   CASE Ev.ev = "add"    -> AddC(Ev.c, Ev.s) /\ eff' = [eff EXCEPT ![Ev.c] = Ev.s] /\ tg' = tg /\ CheckObs
     [] Ev.ev = "remove" -> RemoveC(Ev.c) /\ eff' = [eff EXCEPT ![Ev.c] = "none"] /\ tg' = tg /\ CheckObs
     [] Ev.ev = "trans"  -> TransC(Ev.c, Ev.s) /\ eff' = [eff EXCEPT ![Ev.c] = Sticky(Ev.c, Ev.s)] /\ tg' = tg /\ CheckObs
+    [] Ev.ev = "repl"   -> ReplC(Ev.c) /\ eff' = [eff EXCEPT ![Ev.c] = "CONNECTING"] /\ tg' = tg /\ CheckObs
+    [] Ev.ev = "cfgw"   -> SetAllC(NewStW(st)) /\ eff' = NewStW(eff) /\ tg' = tg /\ CheckObs
     [] Ev.ev = "eps"    -> SetAllC(NewSt) /\ eff' = NewSt /\ tg' = tg /\ CheckObs
     [] Ev.ev = "noop"   -> SetAllC(st) /\ eff' = eff /\ tg' = tg /\ CheckObs
     [] Ev.ev = "panic"  -> UNCHANGED <<avars, tg, obsRep, eff>> /\ Mark(TRUE, "I_NoPanic", l)
